@@ -445,7 +445,7 @@ PROP_OPS = {
     "C07": ["num.cmp", "area.calc", "big.eq", "big.cmp"],
     "C09": ["big.roundtrip", "big.to_base", "big.from_base", "num.roundtrip"],
     "C01": ["exec.steps", "area.calc", "num.cmp"],
-    "C02": ["opt.cmp"], "C10": [],
+    "C02": ["opt.cmp"], "C10": [], "C14": ["exec.steps"],
 }
 
 
